@@ -16,6 +16,7 @@ Require Import V.Proofs.AppenderInv.
 Require Import V.Proofs.C02Quiescent.
 Require Import V.Proofs.ReaderInv.
 Require Import V.Proofs.C03Proofs.
+Require Import V.Proofs.ReaderHb.
 Open Scope Z_scope.
 
 (* ---- the prefix part: every interleaving of a polling subscriber with ANY number of publishers, ANY of which may be
@@ -69,6 +70,38 @@ Theorem C03_run_reach : forall c, wf_cfg c -> forall stop sched r gh,
 Proof. intros c _. exact (run_sched_reach3 c). Qed.
 Print Assumptions C03_run_reach.
 
+(* ---- happens-before race freedom of the frame bytes, on the model with ghost time stamps (Proofs/ReaderHb.v): every step
+   gets its index in the interleaving as its time; per frame slot: wlast / wwho = time and thread of the last write of the
+   publisher's burst into the slot, lenlast = time of the last write to its length word, wrel / relwho = time and thread of
+   the last release write of a positive length; per subscriber: racq = time of its last acquire read of a positive length.
+   reach3h is reach3 (all interleavings, crash points) with these stamps, without driver-side zeroing of partitions. ---- *)
+
+(* every plain read the subscriber makes of a frame (type, flags, payload) is happens-before-after every write that produced
+   the frame:  last burst write --program order--> release write of +length (same thread: wwho = relwho, wlast < wrel)
+   --reads-from--> the subscriber's acquire read (no write to the length word in between: lenlast = wrel; wrel < racq)
+   --program order--> the read (racq <= now) *)
+Theorem C03_hb_chain : forall c, wf_cfg c -> forall s th gh h t l,
+  reach3h c s th gh h -> th t = RRd l -> on_frame (r_pc l) = true ->
+  let p := rd_gen c l mod 3 in let o := r_foff l in
+  (wlast h p o < wrel h p o)%nat /\ wwho h p o = relwho h p o /\ lenlast h p o = wrel h p o /\
+  (wrel h p o < racq h t)%nat /\ (racq h t <= now h)%nat.
+Proof. exact hb_chain. Qed.
+Print Assumptions C03_hb_chain.
+
+(* any two plain writes to a common byte come from one thread: two publishers are never inside the same frame slot ... *)
+Theorem C03_single_writer : forall c, wf_cfg c -> forall s th gh h t1 t2 l1 l2 k1 k2 p o,
+  reach3h c s th gh h -> th t1 = RApp (TPub l1) -> th t2 = RApp (TPub l2) -> t1 <> t2 ->
+  pub_access l1 = (k1, p, o) -> pub_access l2 = (k2, p, o) -> k1 <> WNone -> k2 <> WNone -> False.
+Proof. exact single_writer. Qed.
+Print Assumptions C03_single_writer.
+
+(* ... and no publisher writes into a frame the subscriber is reading: a plain read is never followed by a conflicting write *)
+Theorem C03_no_write_under_reader : forall c, wf_cfg c -> forall s th gh h t l tw lw k p o,
+  reach3h c s th gh h -> th t = RRd l -> on_frame (r_pc l) = true -> th tw = RApp (TPub lw) ->
+  pub_access lw = (k, p, o) -> k <> WNone -> (p, o) <> (rd_gen c l mod 3, r_foff l).
+Proof. exact no_write_under_reader. Qed.
+Print Assumptions C03_no_write_under_reader.
+
 (* ---- K1: the ordering class of the accessors, computed from the regenerated fence / atomic-operation table ---- *)
 Theorem C03_get_volatile_is_acquire : cls GetVolatile = CAcqR.
 Proof. exact get_volatile_is_acquire. Qed.
@@ -101,3 +134,29 @@ Theorem C03_header_burst_skips_length :
   GenConsts.DFH_FRAME_LENGTH_FIELD_OFFSET + 4 <= burst_lo /\ burst_hi <= GenConsts.DFH_RESERVED_VALUE_FIELD_OFFSET.
 Proof. exact header_burst_skips_length. Qed.
 Print Assumptions C03_header_burst_skips_length.
+
+(* ---- the hypotheses are satisfiable: a legal geometry, one publisher and one subscriber, and the decidable form of the
+   property evaluated on a model run in which the subscriber polls while the publisher is inside its append ---- *)
+Example C03_example_cfg : wf_cfg (mkCfg 5 10 64 11 22 0 960).
+Proof. constructor; cbn; try (vm_compute; intuition congruence). Qed.
+
+Example C03_example_run :
+  let c := mkCfg 5 10 64 11 22 0 960 in
+  let r := run_case3 c 100000 [rpub 3 [payload 1 40]; reader 6 10]
+             [0;0;0;0;0;1;1;0;0;0;0;1;1;1;1;1;1;1;0;0;0;0;0;0;0;0;0;0;0;0;0;0;0;0;0;0;0;0;0;0]%nat [] in
+  holds_C03 c [1] r = true /\ length (snd r) = 2%nat.
+Proof. vm_compute. split; reflexivity. Qed.
+
+Example C03_example_reach :
+  let c := mkCfg 5 10 64 11 22 0 960 in
+  let th := rthreads_of [rpub 3 [payload 1 40]; reader 3 10] in
+  exists s th' gh h, reach3h c s th' gh h /\ (exists l, th' 1%nat = RRd l /\ r_pc l = RLen).
+Proof. intros c th.
+  assert (R0 : reach3h c (init_shared c 4096) th ghost0 stamps0).
+  { apply reach3h_init.
+    - intros t. destruct t as [|t]; [exists [payload 1 40], 3%nat; reflexivity|].
+      destruct t as [|t]; [exists 3%nat, 10; reflexivity|]. unfold th, rthreads_of. cbn [nth]. destruct t; exact I.
+    - intros t t' l l' H1 H2. destruct t as [|[|t]]; destruct t' as [|[|t']]; try reflexivity; try discriminate;
+        unfold th, rthreads_of in *; cbn [nth] in *; try (destruct t; discriminate); try (destruct t'; discriminate). }
+  pose proof (reach3h_step c _ th ghost0 stamps0 1%nat _ _ _ R0 I I eq_refl) as R1.
+  eexists. eexists. eexists. eexists. split; [exact R1|]. eexists. split; reflexivity. Qed.
